@@ -271,7 +271,7 @@ func (rl *Shell) viBackwardChar() {
 		return
 	}
 
-	for i := 1; i <= vii; i++ {
+	for i := 1; i <= vii && rl.cursor.Pos() > 0; i++ {
 		if (*rl.line)[rl.cursor.Pos()-1] == '\n' {
 			break
 		}
